@@ -234,17 +234,17 @@ theorem bid_lookup (v : Nat) : lookupCase bidLit v =
 /-! ## the regenerated SubmitOrder literals as the model reads them -/
 
 theorem serverOrderMap_eq : serverOrderMap = some
-    [(.traderKey, .acctKey), (.auctionType, .auctionTypeLocal), (.rateFixed, .fixedRate), (.amt, .amtU64),
-     (.minChanAmt, .minChanAmtLocal), (.orderNonce, .nonceLocal), (.orderSig, .rawSig),
-     (.multiSigKey, .paramMultiSig), (.nodePub, .paramNodePub), (.nodeAddr, .nodeAddrs),
-     (.channelType, .channelTypeLocal), (.maxBatchFeeRate, .feeU64), (.isPublic, .isPublic)] := by decide
+    [(.traderKey, .acctKey), (.auctionType, .auctionTypeEnum), (.rateFixed, .fixedRate), (.amt, .amtU64),
+     (.minChanAmt, .minChanAmt), (.orderNonce, .nonce), (.orderSig, .rawSig),
+     (.multiSigKey, .paramMultiSig), (.nodePub, .paramNodePub),
+     (.channelType, .channelTypeEnum), (.maxBatchFeeRate, .feeU64), (.isPublic, .isPublic)] := by decide
 
 theorem serverAskMap_eq : serverAskMap = some
-    [(.details, .detailsLocal), (.leaseDurationBlocks, .leaseDuration), (.version, .versionU32),
-     (.announcement, .announcementLocal), (.confirmation, .confirmationsLocal)] := by decide
+    [(.leaseDurationBlocks, .leaseDuration), (.version, .versionU32),
+     (.announcement, .announcement), (.confirmation, .confirmations)] := by decide
 
 theorem serverBidMap_eq : serverBidMap = some
-    [(.details, .detailsLocal), (.leaseDurationBlocks, .leaseDuration), (.version, .versionU32),
+    [(.leaseDurationBlocks, .leaseDuration), (.version, .versionU32),
      (.minNodeTier, .nodeTierEnum), (.selfChanBalance, .scbU64), (.isSidecarChannel, .sidecarNonNil),
      (.unannounced, .unannounced), (.zeroConf, .zeroConf)] := by decide
 
